@@ -197,6 +197,7 @@ Section WithEnv.
                             | None => DErr EShort    (* i > len(b): caught at the top of the loop *)
                             end
                         | SErr e => DErr (ESkip e)
+                        | SPanic => DErr (ESkip SkUnknownType)   (* skipValue recovers the panic *)
                         | SFuel => DFuel
                         end
                     | Some (i, f) =>
